@@ -28,6 +28,9 @@ type program struct {
 	Order []string `json:"order"`
 	// NoSBU lists variables ("O:-b", "A:Y") declared without a SetByUser pointer
 	NoSBU []string `json:"nosbu"`
+	// Builtin: options are declared with the built-in types (BoolOpt for flags, StringOpt for valued ones) instead of the recording
+	// type; what is reported for a variable is then its final value, if the user set it
+	Builtin bool `json:"builtin"`
 }
 
 func loadPrograms() []program {
@@ -144,7 +147,11 @@ func runExec(p program, c execCase) (r execResult) {
 	for _, o := range p.Opts {
 		k := optKey(o.Names)
 		if envset[k] {
-			os.Setenv(envVarOf(k), "env")
+			val := "env"
+			if p.Builtin && o.Flag {
+				val = "true" // must be valid for the type to count
+			}
+			os.Setenv(envVarOf(k), val)
 		} else {
 			os.Unsetenv(envVarOf(k))
 		}
@@ -196,12 +203,26 @@ func runExec(p program, c execCase) (r execResult) {
 	for _, k := range p.NoSBU {
 		nosbu[k] = true
 	}
+	finals := map[string]func() string{}
 	declOpt := func(o optDecl) {
 		if o.Version {
 			app.Version(o.Names, "VERSION-STRING-2.0")
 			return
 		}
 		k := optKey(o.Names)
+		if p.Builtin {
+			b := new(bool)
+			sbu["O:"+k] = b
+			logs["O:"+k] = new([]string)
+			if o.Flag {
+				v := app.Bool(cli.BoolOpt{Name: o.Names, EnvVar: envVarOf(k), SetByUser: b})
+				finals["O:"+k] = func() string { return fmt.Sprint(*v) }
+			} else {
+				v := app.String(cli.StringOpt{Name: o.Names, EnvVar: envVarOf(k), SetByUser: b})
+				finals["O:"+k] = func() string { return *v }
+			}
+			return
+		}
 		l, b := new([]string), new(bool)
 		logs["O:"+k] = l
 		if nosbu["O:"+k] {
@@ -252,6 +273,11 @@ func runExec(p program, c execCase) (r execResult) {
 		r.Ran = true
 		for k, b := range sbu {
 			r.SBU[k] = *b
+		}
+		for k, f := range finals {
+			if *sbu[k] {
+				*logs[k] = append(*logs[k], "S:"+f())
+			}
 		}
 	}
 	for _, pre := range c.Prerun {
